@@ -36,7 +36,7 @@ func runC13(args []string) {
 	r.Rule = "base schemas (construct and ordering families + seeded random schemas, all first confirmed accepted by the real ReadFile+Generate) x every single " +
 		"semantic-error injection of the statement's classes at every applicable site (undefined type per field site and type shape, duplicate definition/field/option names, duplicate enum values " +
 		"in another spelling, duplicate indices, index zero, duplicate opcodes in all spelling pairs, enum value one below/above each base's range, const literal of each wrong kind, primitive names, " +
-		"struct self-containment: direct, cycles of length 2..64 in several declaration orders, inside a union branch); positive recursion cases and long acyclic chains must be accepted within the CPU budget. " +
+		"struct self-containment: direct, cycles of length 2..64 in several declaration orders, inside a union branch, cycles among inline union members with 0/1/3 top-level structs, the branch-located injections in a member with discriminator 0); positive recursion cases and long acyclic chains must be accepted within the CPU budget. " +
 		"distinct_nontrivial = distinct (error class, site) pairs injected into an accepted base + positive cases."
 	r.Assume = []string{"out-of-range numeric consts are only warned about (pinned by TestReadFileErrorWarnings) and are not demanded to be errors",
 		"self-containment through arrays/maps is not demanded either way", "CPU budget 20 s per ReadFile+Generate call"}
